@@ -453,7 +453,8 @@ def st_trunc(draw):
                                        st.sampled_from([1, top, 59, 60])))
             props["day_of_year"] = dv["doy"]
         if "ww" in toks:
-            top = 53 if not has_year else (51 if cm == "360day" else 52)
+            top = ((52 if cm == "360day" else 53) if not has_year else
+                   (51 if cm == "360day" else 52))
             dv["week"] = draw(st.one_of(st.integers(1, top),
                                         st.sampled_from([1, top])))
             props["week_of_year"] = dv["week"]
